@@ -4,7 +4,7 @@
 //! `kit::pipe` whose chunking / readiness the explorer decides; per endpoint one driver task
 //! (poll_outbound on request, poll_inbound, poll — the way libp2p-swarm's `Connection` uses a
 //! `StreamMuxer`) and one task per substream that executes its operation script
-//! (write tagged bytes / flush / close / read n / read to EOF / drop). The task schedule is the
+//! (write tagged bytes / zero-length write / flush / close / read n / read to EOF / drop). The task schedule is the
 //! explorer's as well. Every execution starts with the virtual clock and the entropy stream
 //! reset; the muxers turned out not to draw entropy on any decision path (guarded, see `body`),
 //! so executions run in place; `C24_ISOLATE=1` runs each on a fresh thread as a cross-check.
@@ -37,7 +37,7 @@ use std::task::{Poll, Waker};
 
 pub const META: Meta = Meta {
     level: "model_checking",
-    rule: "units = muxer configuration (mplex Block max_buffer_len 1 split 2; mplex Block max_buffer_len 2 split 3; mplex ResetStream buffer 32 split 2; yamux default) x operation script (1-2 substreams per side quick, up to 3 thorough; open/write/flush/close/read/drop orders incl. writer-reset and reader-drop); per unit every execution with <= bound deviations (bound 2 quick / 3 thorough; 1-byte reads, 1-byte writes, injected Pending on read/write/flush of the shared connection, non-round-robin task choice). Non-trivial = executions with >= 1 deviation, distinct by (unit, choice sequence).",
+    rule: "units = muxer configuration (mplex Block max_buffer_len 1 split 2; mplex Block max_buffer_len 2 split 3; mplex ResetStream buffer 32 split 2; yamux default) x operation script (1-2 substreams per side quick, up to 3 thorough; open/write/zero-length write/flush/close/read/drop orders incl. writer-reset and reader-drop); per unit every execution with <= bound deviations (bound 2 quick / 3 thorough; 1-byte reads, 1-byte writes, injected Pending on read/write/flush of the shared connection, non-round-robin task choice). Non-trivial = executions with >= 1 deviation, distinct by (unit, choice sequence).",
     explanation: "E1 stateless DFS with deviation bound over the real muxers joined by an in-memory pipe; each execution with the virtual clock and the entropy stream reset (any entropy consumption by yamux is a machinery error; fresh-thread isolation available as cross-check); oracle from the operation log: per handle the bytes read are a prefix of the paired peer handle's written bytes (tags), complete at EOF after a completed close, EOF only after close/drop, no foreign tag, no error on clean streams, no stuck execution.",
     assumptions: &[
         "poll-granularity interleaving on one thread; one driver task per endpoint calls poll_inbound/poll_outbound/poll (as libp2p-swarm does), substreams live in their own tasks",
@@ -53,6 +53,9 @@ pub const META: Meta = Meta {
 enum Op {
     /// write n tagged bytes (write_all)
     W(usize),
+    /// one `poll_write` with an EMPTY buffer (a zero-length write; mplex sends an empty Data
+    /// frame for it). Writes nothing, must not end the peer's stream.
+    Z,
     /// flush
     F,
     /// close (half-close of the write side)
@@ -108,6 +111,12 @@ fn scripts(thorough: bool) -> Vec<Script> {
             accepts: [vec![vec![E, W(1), C], vec![W(1), C, E]], vec![vec![E, W(1), C], vec![W(1), C, E]]],
         },
     ];
+    // zero-length writes: as first write, between non-empty writes, before close
+    v.push(Script {
+        name: "zero-length-writes",
+        opens: [vec![vec![Z, W(2), Z, W(2), F, C, E], vec![W(2), Z, F, W(1), Z, C, E]], vec![]],
+        accepts: [vec![], vec![vec![E, Z, W(1), C], vec![Z, W(2), Z, C, E]]],
+    });
     if thorough {
         v.push(Script {
             name: "three-streams",
@@ -215,6 +224,17 @@ async fn stream_task<S: AsyncRead + AsyncWrite + Unpin>(mut s: S, id: Hid, ops: 
                     break;
                 }
             }
+            Z => match poll_fn(|cx| Pin::new(&mut s).poll_write(cx, &[])).await {
+                Ok(0) => {}
+                Ok(k) => {
+                    log.borrow_mut().h.get_mut(&id).unwrap().write_err = Some(format!("zero-length write returned {k}"));
+                    break;
+                }
+                Err(e) => {
+                    log.borrow_mut().h.get_mut(&id).unwrap().write_err = Some(ek(&e));
+                    break;
+                }
+            },
             F => {
                 if let Err(e) = poll_fn(|cx| Pin::new(&mut s).poll_flush(cx)).await {
                     log.borrow_mut().h.get_mut(&id).unwrap().flush_err = Some(ek(&e));
